@@ -7,7 +7,7 @@ CONSTANTS
   IdClasses = {"low", "gen", "high"}
   DictForms = {"plain", "cf-length-bits", "cf-no-length", "no-length"}
   Roots = {"object", "objstm"}
-  Dev = {"encrypt_dict_decrypted"}
+  Dev = {"cf_bits_refused_for_owner"}
 INIT Init
 NEXT Next
 INVARIANTS PlaintextOrRejected
